@@ -130,8 +130,14 @@ pub fn gen_label(rng: &mut Rng) -> String {
         12 => {
             let c = *rng.pick(&[
                 "\"", "\\", "'", "\\\"", "\\\\", "a b", " a", "a ", ";", ",", "=", ":", ".", "{", "}", "(", ")", "//", "/*",
-                "*/", "a,b", "a;b", "\\u{41}", "\\41", "\\n", "${x}", "{{", "`",
+                "*/", "a,b", "a;b", "\\u{41}", "\\41", "\\n", "${x}", "{{", "`", "\\0", "\\0a", "a\\0", "\\\\0", "\\u{0}", "\\x00",
+                "\\u{", "\\u{}", "\\'", "\\t", "\\r",
             ]);
+            if rng.chance(1, 4) {
+                // a literal backslash followed by anything (printers that post-process escaped text get these wrong)
+                let d = *rng.pick(&['0', '1', '7', 'x', 'u', 'n', 'a', '{', '"', '\\', ' ']);
+                return format!("{}\\{d}{}", if rng.bool() { "a" } else { "" }, if rng.bool() { "0" } else { "" });
+            }
             c.to_string()
         }
         13 => {
@@ -154,6 +160,12 @@ pub fn gen_label(rng: &mut Rng) -> String {
                 "📦🍦",
                 "ü",
                 "\u{85}",
+                "\u{80}",
+                "\u{9b}",
+                "\u{9f}",
+                "\u{ff}",
+                "caf\u{e9}",
+                "line one\u{85}line two",
                 "\u{a0}",
                 "\u{2028}",
                 "\u{ad}",
